@@ -44,7 +44,8 @@ def find_history(model, q, max_states=20000):
     src = scen.ConcSource(model)
     shape = Shape.from_json(q['shape'])
     sens = [tuple(a) for a in q['sens']] if q.get('sens') else None
-    w = scen.build_world(src, shape, sens=sens, host_fw=q.get('host_fw', True))
+    w = scen.build_world(src, shape, sens=sens, host_fw=q.get('host_fw', True),
+                         host_order=q.get('host_order'))
     net = m_net.Network(w.scenario)
     init = m_state.State.generate_initial_state(net)
     goal_state = init.copy()
